@@ -128,7 +128,7 @@ def _classify(out: str):
 
 
 def _call_args(msg: str, name: str):
-    m = re.search(re.escape(name) + r"\((.*)\)(?: \(which returns| \(which raises|$)", msg)
+    m = re.search(re.escape(name) + r"\((.*?)\)(?: \(which returns| \(which raises|$)", msg)
     if not m:
         m = re.search(re.escape(name) + r"\((.*?)\)(?=\s|$)", msg)
     return m.group(1) if m else None
